@@ -6,6 +6,7 @@
 use crate::dto::{self, Timestamp, TimestampFormat};
 use crate::utils::format::*;
 
+use std::borrow::Cow;
 use std::fmt;
 use std::io::Write;
 
@@ -29,6 +30,11 @@ pub trait SerializeContent {
     /// # Errors
     /// Returns an error if the serialization fails
     fn serialize_content<W: Write>(&self, s: &mut Serializer<W>) -> SerResult;
+
+    /// Attributes (name, value) of the start tag of the element that holds the content
+    fn attributes(&self) -> Vec<(&str, &str)> {
+        Vec::new()
+    }
 }
 
 /// AWS restXml serializer
@@ -77,11 +83,15 @@ impl<W: Write> Serializer<W> {
     /// # Errors
     /// Returns an error if the underlying writer returns an error
     pub fn content<T: SerializeContent + ?Sized>(&mut self, name: &str, val: &T) -> SerResult {
-        self.element(name, |s| val.serialize_content(s))
+        self.event(start_of(name, None, val))?;
+        val.serialize_content(self)?;
+        self.event(end(name))
     }
 
     pub fn content_with_ns<T: SerializeContent + ?Sized>(&mut self, name: &str, xmlns: &str, val: &T) -> SerResult {
-        self.element_with_ns(name, xmlns, |s| val.serialize_content(s))
+        self.event(start_of(name, Some(xmlns), val))?;
+        val.serialize_content(self)?;
+        self.event(end(name))
     }
 
     /// Serializes a flattened `list`
@@ -188,6 +198,31 @@ fn start_with_ns<'a>(name: &'a str, xmlns: &'a str) -> Event<'a> {
     let mut e = BytesStart::new(name);
     e.push_attribute(("xmlns", xmlns));
     Event::Start(e)
+}
+
+/// start event of the element that holds `val`: the namespace (if any), then the attributes of `val`
+fn start_of<'a, T: SerializeContent + ?Sized>(name: &'a str, xmlns: Option<&str>, val: &T) -> Event<'a> {
+    let mut e = BytesStart::new(name);
+    if let Some(xmlns) = xmlns {
+        e.push_attribute(("xmlns", xmlns));
+    }
+    for (key, value) in val.attributes() {
+        e.push_attribute((key.as_bytes(), attr_value(value).as_bytes()));
+    }
+    Event::Start(e)
+}
+
+/// attribute value
+///
+/// Every conforming XML reader turns a literal tab, line feed or carriage return of an attribute value
+/// into a space (XML 1.0, 3.3.3): they only survive as character references.
+fn attr_value(value: &str) -> Cow<'_, str> {
+    let escaped = quick_xml::escape::escape(value);
+    if escaped.contains(['\t', '\n', '\r']) {
+        Cow::Owned(escaped.replace('\t', "&#9;").replace('\n', "&#10;").replace('\r', "&#13;"))
+    } else {
+        escaped
+    }
 }
 
 /// end event
